@@ -217,6 +217,22 @@ def hvsr_relations(run, h):
             if p == 100 and not np.allclose(rd, st_all.max(axis=0), rtol=1e-9):
                 run.violation("hvsr:rotd100-is-max", "RotD100 is not the maximum over the azimuths", dict(kind="hvsr-rel", p=p))
             prev = rd
+        # recordings with different time steps in one call (the default policy processes all of them): RotD0 / RotD100 of EVERY recording
+        # are the minimum / maximum of ITS single-azimuth curves, each on the common centre frequencies
+        if r_ % len(kws) == 0:
+            n2 = 400
+            rec2 = h.SeismicRecording3C(ts(mk()[:n2], 0.02), ts(mk()[:n2], 0.02), ts(mk()[:n2], 0.02), degrees_from_north=0.0)
+            pair = [rec2, rec] if r_ % (2 * len(kws)) == 0 else [rec, rec2]
+            az_m = [0.0, 50.0, 100.0, 150.0]
+            sa_ = [np.atleast_2d(proc(pair, h.HvsrTraditionalSingleAzimuthProcessingSettings(azimuth_in_degrees=a, **kw)).amplitude) for a in az_m]
+            for p, red in ((0, np.min), (100, np.max)):
+                rd = np.atleast_2d(proc(pair, h.HvsrTraditionalRotDppProcessingSettings(azimuths_in_degrees=az_m, ppth_percentile_for_rotdpp_computation=p, **kw)).amplitude)
+                for k_ in range(len(pair)):
+                    want_ = red(np.array([s_[k_] for s_ in sa_]), axis=0)
+                    if rd.shape[0] != len(pair) or not np.allclose(rd[k_], want_, rtol=1e-9):
+                        run.violation("hvsr:rotdpp-mixed-time-steps", f"RotD{p} of recording {k_} (dt={pair[k_].ns.dt_in_seconds}) in a list with two time steps is not the "
+                                      f"{'minimum' if p == 0 else 'maximum'} of its single-azimuth curves", dict(kind="hvsr-rel", p=p, k=k_))
+            run.case(("rot-mixed-dt", r_))
         # rotation-invariant combinations do not depend on the sensor orientation
         for theta in (17.0, 90.0, -123.4, 400.0):
             r2 = copy.deepcopy(rec)
